@@ -109,6 +109,12 @@ static int mode_transfer(int cases, int max_nr, int max_nt)
                 Vector<double> o3(gf.numberOfNodes());
                 I.applyFMGInterpolation(coarse, fine, o3, from_rowmajor(gc, xq));
                 printf("TR op=fmg kind=cubic_r threads=1 x=%s out=%s\n", hexvec(xq).c_str(), hexvec(to_rowmajor(gf, o3)).c_str());
+                // … and a cubic in theta (not periodic: only the fine nodes whose four-point angular stencil does not cross theta = 0 are judged)
+                std::vector<double> xqt(gc.numberOfNodes());
+                for (int i = 0; i < gc.nr(); i++) for (int j = 0; j < gc.ntheta(); j++) { double t = gc.theta(j); xqt[(size_t)i * gc.ntheta() + j] = 1.0 + t * (1.0 + t * (-2.0 + 3.0 * t)); }
+                Vector<double> o4(gf.numberOfNodes());
+                I.applyFMGInterpolation(coarse, fine, o4, from_rowmajor(gc, xqt));
+                printf("TR op=fmg kind=cubic_t threads=1 x=%s out=%s\n", hexvec(xqt).c_str(), hexvec(to_rowmajor(gf, o4)).c_str());
             }
             up("prolong", [&](Vector<double>& o) { I.applyProlongation(coarse, fine, o, xcv); });
             up("prolong0", [&](Vector<double>& o) { I.applyProlongation0(coarse, fine, o, xcv); });
